@@ -54,14 +54,16 @@ def confirm(pid, letter):
     shutil.copy(os.path.join(out, "demo", demo[0]), os.path.join(wt, dest[0], dest[1]))
     rc_clean, o1 = sh(cmd, wt)
     print(f"[{pid}-{letter}] demo on clean tree: rc={rc_clean}")
+    os.remove(os.path.join(wt, dest[0], dest[1]))
     rc, o = sh(f"git apply {out}/patch.diff", wt)
     if rc != 0:
         print("patch does not apply", o)
         return 2
-    rc_suite, o2 = sh("cargo test --workspace --no-fail-fast --offline 2>&1 | grep -E '^test result|FAILED|error' ", wt)
+    rc_suite, o2 = sh("cargo test --workspace --no-fail-fast --offline 2>&1 | grep -E '^test result|^error' ", wt)
     passed = sum(int(x) for x in re.findall(r"ok\. (\d+) passed", o2))
-    failed = "FAILED" in o2 or re.search(r"[1-9]\d* failed", o2) is not None or "error" in o2
+    failed = "FAILED" in o2 or re.search(r"[1-9]\d* failed", o2) is not None or re.search(r"^error", o2, re.M) is not None
     print(f"[{pid}-{letter}] suite with mutant: passed={passed} failed={failed}")
+    shutil.copy(os.path.join(out, "demo", demo[0]), os.path.join(wt, dest[0], dest[1]))
     rc_mut, o3 = sh(cmd, wt)
     print(f"[{pid}-{letter}] demo with mutant: rc={rc_mut}")
     sh("git checkout -- . && git clean -fdq -e target -e Cargo.lock", wt)
